@@ -81,7 +81,8 @@ PROPS = {
     ),
     "C09": dict(
         coq=["Props.C09_ans"],
-        fams=[("fam_ans", "gen_impossible", 500, 30000), ("fam_ansb", "gen_bounded", 400, 20000)],
+        fams=[("fam_ans", "gen_impossible", 500, 30000), ("fam_ansb", "gen_bounded", 400, 20000),
+              ("fam_ans", "gen_stack", 200, 10000)],
         anchors=["src/stream/stack.rs", "src/stream/queue.rs", "src/stream/chain.rs", "src/lib.rs"],
         rule="history with >=1 rejected symbol (or >=1 failed write) followed by >=1 successful operation",
         level_text="Coq theorems: an out-of-support symbol yields ImpossibleSymbol without touching the coder; with a "
